@@ -12,7 +12,6 @@ import (
 	"strconv"
 	"strings"
 	"sync"
-	"sync/atomic"
 	"testing"
 	"time"
 
@@ -32,33 +31,31 @@ import (
 const (
 	guestMark     = "gUeStMaRk"
 	secretMark    = "sEcReT-"
-	sentinelMagic = "P18-SENTINEL "
+	sentinelMagic = "P18-SENTINEL"
 )
 
 // ---- observing listeners ----------------------------------------------------
 
 type obsConn struct {
-	Remote   string
-	Raw      []byte
-	sentinel bool
-	done     chan struct{}
-	c        net.Conn
+	Remote string
+	Raw    []byte
+	done   chan struct{}
+	c      net.Conn
 }
 
 type obsListener struct {
-	ln      net.Listener
-	addr    netip.Addr
-	port    string
-	mode    string // ok | redirect | close | hang | proxy
-	status  int
-	loc     string
-	body    []byte
-	mu      sync.Mutex
-	conns   []*obsConn
-	waiters map[string]chan struct{}
+	ln        net.Listener
+	addr      netip.Addr
+	port      string
+	mode      string // ok | redirect | close | hang | proxy
+	status    int
+	loc       string
+	body      []byte
+	mu        sync.Mutex
+	conns     []*obsConn
+	sentinels map[string]bool // remote addresses of the test's own barrier connections
+	accepted  chan struct{}   // poked after every accept
 }
-
-var sentinelSeq atomic.Int64
 
 func listenObs(ip string, port string) (*obsListener, error) {
 	ln, err := net.Listen("tcp", net.JoinHostPort(ip, port))
@@ -67,7 +64,8 @@ func listenObs(ip string, port string) (*obsListener, error) {
 	}
 	ta := ln.Addr().(*net.TCPAddr)
 	a, _ := netip.AddrFromSlice(ta.IP)
-	l := &obsListener{ln: ln, addr: a.Unmap(), port: strconv.Itoa(ta.Port), mode: "ok", waiters: map[string]chan struct{}{}}
+	l := &obsListener{ln: ln, addr: a.Unmap(), port: strconv.Itoa(ta.Port), mode: "ok",
+		sentinels: map[string]bool{}, accepted: make(chan struct{}, 1)}
 	go l.acceptLoop()
 	return l, nil
 }
@@ -82,6 +80,10 @@ func (l *obsListener) acceptLoop() {
 		l.mu.Lock()
 		l.conns = append(l.conns, oc)
 		l.mu.Unlock()
+		select {
+		case l.accepted <- struct{}{}:
+		default:
+		}
 		go l.handle(oc)
 	}
 }
@@ -89,7 +91,7 @@ func (l *obsListener) acceptLoop() {
 func (l *obsListener) handle(oc *obsConn) {
 	defer close(oc.done)
 	c := oc.c
-	_ = c.SetDeadline(time.Now().Add(300 * time.Millisecond))
+	_ = c.SetDeadline(time.Now().Add(2 * time.Second))
 	buf := make([]byte, 0, 2048)
 	tmp := make([]byte, 2048)
 	for len(buf) < 16384 {
@@ -105,26 +107,15 @@ func (l *obsListener) handle(oc *obsConn) {
 			break
 		}
 	}
-	if bytes.HasPrefix(buf, []byte(sentinelMagic)) {
-		nonce := strings.TrimSpace(strings.TrimPrefix(string(buf), sentinelMagic))
-		l.mu.Lock()
-		oc.sentinel = true
-		if ch, ok := l.waiters[nonce]; ok {
-			close(ch)
-			delete(l.waiters, nonce)
-		}
-		l.mu.Unlock()
-		_ = c.Close()
-		return
-	}
 	l.mu.Lock()
 	oc.Raw = buf
 	mode, status, loc, body := l.mode, l.status, l.loc, l.body
 	l.mu.Unlock()
-	if len(buf) > 0 && buf[0] == 0x16 {
+	if bytes.HasPrefix(buf, []byte(sentinelMagic)) || len(buf) > 0 && buf[0] == 0x16 {
 		_ = c.Close()
 		return
 	}
+	_ = c.SetDeadline(time.Now().Add(2 * time.Second))
 	switch mode {
 	case "ok":
 		fmt.Fprintf(c, "HTTP/1.1 200 OK\r\nContent-Type: text/plain\r\nContent-Length: %d\r\nConnection: close\r\n\r\n", len(body))
@@ -144,34 +135,45 @@ func (l *obsListener) handle(oc *obsConn) {
 }
 
 // barrier makes sure every connection that completed before the call has been
-// accepted and handled: a sentinel connection is queued behind them (the accept
-// queue is FIFO) and all earlier handlers are awaited.
+// accepted and handled: the test opens a sentinel connection of its own, which
+// queues behind them (the accept queue is FIFO), waits until the accept loop has
+// produced it, and then awaits the handlers of everything accepted so far. The
+// sentinel is recognised by its (unique) client address, never by timing.
 func (l *obsListener) barrier() error {
-	nonce := strconv.FormatInt(sentinelSeq.Add(1), 10)
-	ch := make(chan struct{})
-	l.mu.Lock()
-	l.waiters[nonce] = ch
-	l.mu.Unlock()
-	c, err := net.DialTimeout("tcp", l.ln.Addr().String(), 3*time.Second)
+	c, err := net.DialTimeout("tcp", l.ln.Addr().String(), 5*time.Second)
 	if err != nil {
 		return fmt.Errorf("sentinel dial %s: %w", l.ln.Addr(), err)
 	}
 	defer c.Close()
-	if _, err := c.Write([]byte(sentinelMagic + nonce + "\n")); err != nil {
-		return fmt.Errorf("sentinel write: %w", err)
-	}
-	select {
-	case <-ch:
-	case <-time.After(10 * time.Second):
-		return fmt.Errorf("sentinel on %s not observed", l.ln.Addr())
-	}
+	local := c.LocalAddr().String()
 	l.mu.Lock()
-	conns := append([]*obsConn(nil), l.conns...)
+	l.sentinels[local] = true
 	l.mu.Unlock()
-	for _, oc := range conns {
+	_, _ = c.Write([]byte(sentinelMagic + "\n")) // lets the handler finish at once
+	timeout := time.After(20 * time.Second)
+	var upTo []*obsConn
+	for upTo == nil {
+		l.mu.Lock()
+		for i, oc := range l.conns {
+			if oc.Remote == local {
+				upTo = append([]*obsConn(nil), l.conns[:i+1]...)
+			}
+		}
+		l.mu.Unlock()
+		if upTo != nil {
+			break
+		}
+		select {
+		case <-l.accepted:
+		case <-time.After(50 * time.Millisecond):
+		case <-timeout:
+			return fmt.Errorf("sentinel on %s not accepted", l.ln.Addr())
+		}
+	}
+	for _, oc := range upTo {
 		select {
 		case <-oc.done:
-		case <-time.After(10 * time.Second):
+		case <-timeout:
 			return fmt.Errorf("handler on %s did not finish", l.ln.Addr())
 		}
 	}
@@ -184,12 +186,13 @@ func (l *obsListener) take() []*obsConn {
 	defer l.mu.Unlock()
 	var out []*obsConn
 	for _, oc := range l.conns {
-		if !oc.sentinel {
+		if !l.sentinels[oc.Remote] {
 			out = append(out, oc)
 		}
 		_ = oc.c.Close()
 	}
 	l.conns = nil
+	l.sentinels = map[string]bool{}
 	return out
 }
 
@@ -261,7 +264,9 @@ func setupE2E() (*e2eEnv, error) {
 	if err != nil {
 		return nil, err
 	}
+	px.mu.Lock()
 	px.mode = "proxy"
+	px.mu.Unlock()
 	env.proxy = px
 	old := map[string]*string{}
 	for _, k := range append(append([]string{}, proxyEnvKeys...), "NO_PROXY", "no_proxy") {
@@ -439,13 +444,20 @@ func genE2ECase(t *rapid.T, pool []poolAddr) e2eCase {
 		}
 	}
 
-	// allowlist
+	// allowlist. With "direct" the first entry is the exact http carve-out of
+	// listener 0 and the first request addresses it unperturbed, so that the
+	// redirect / header / secret / size clauses see traffic often enough.
+	direct := rapid.IntRange(0, 9).Draw(t, "direct-carve-out") >= 6
 	nA := rapid.IntRange(1, 5).Draw(t, "n-allow")
-	if nA == 5 {
+	if nA == 5 && !direct {
 		nA = 0 // no opt-in at all
 	}
 	for i := 0; i < nA; i++ {
 		var a allowSpec
+		if direct && i == 0 {
+			c.Allow = append(c.Allow, allowSpec{Scheme: "http", Host: c.Listeners[0].Addr, Port: portRef{Of: 0}})
+			continue
+		}
 		switch k := rapid.IntRange(0, 19).Draw(t, "allow-kind"); {
 		case k < 7: // hostname entry (https only: ParseAllowEntry refuses http for hostnames)
 			a.Host = rapid.SampledFrom(hostnames).Draw(t, "allow-host")
@@ -487,8 +499,8 @@ func genE2ECase(t *rapid.T, pool []poolAddr) e2eCase {
 				c.CeilingKeep = append(c.CeilingKeep, i)
 			}
 		}
-		if len(c.CeilingKeep) == 0 && len(c.Allow) > 0 {
-			c.CeilingKeep = []int{0}
+		if len(c.Allow) > 0 && (len(c.CeilingKeep) == 0 || direct && c.CeilingKeep[0] != 0) {
+			c.CeilingKeep = append([]int{0}, c.CeilingKeep...)
 		}
 	}
 	c.Secrets = genSubset(t, secretNames, "secret")
@@ -530,7 +542,10 @@ func genE2ECase(t *rapid.T, pool []poolAddr) e2eCase {
 	// requests
 	for i := rapid.IntRange(1, 2).Draw(t, "n-requests"); i > 0; i-- {
 		var r reqSpec
-		if len(c.Allow) > 0 && rapid.IntRange(0, 9).Draw(t, "req-from-allow") != 7 {
+		if direct && len(c.Reqs) == 0 {
+			h := c.Listeners[0].Addr
+			r.Scheme, r.Host, r.Port = "http", hostText(h), portRef{Of: 0}
+		} else if len(c.Allow) > 0 && rapid.IntRange(0, 9).Draw(t, "req-from-allow") != 7 {
 			a := c.Allow[rapid.IntRange(0, len(c.Allow)-1).Draw(t, "req-allow-idx")]
 			if a.Port.Of < 0 && a.Port.Of > -3 { // never target the redirect target or the proxy directly
 				a = allowSpec{Scheme: "http", Host: c.Listeners[0].Addr, Port: portRef{Of: 0}}
@@ -579,23 +594,20 @@ func genE2ECase(t *rapid.T, pool []poolAddr) e2eCase {
 		r.Userinfo = rapid.SampledFrom(userinfos).Draw(t, "req-userinfo")
 		r.Path = rapid.SampledFrom(paths).Draw(t, "req-path")
 		r.Method = rapid.SampledFrom(methods).Draw(t, "req-method")
-		hostile := rapid.IntRange(0, 9).Draw(t, "hdr-hostile") >= 7
-		for j := rapid.IntRange(0, 3).Draw(t, "n-headers"); j > 0; j-- {
-			name := rapid.SampledFrom(safeHeaders).Draw(t, "hdr-safe")
-			if hostile {
-				switch k := rapid.IntRange(0, 9).Draw(t, "hdr-kind"); {
-				case k < 2:
-				case k < 9:
-					name = rapid.SampledFrom(reservedHdrs).Draw(t, "hdr-reserved")
-				default:
-					name = rapid.SampledFrom(invalidHdrs).Draw(t, "hdr-invalid")
-				}
-			}
-			val := guestMark
-			if hostile {
-				val = rapid.SampledFrom(hdrValues).Draw(t, "hdr-value")
-			}
-			r.Headers = append(r.Headers, [2]string{name, val})
+		for j := rapid.IntRange(0, 2).Draw(t, "n-safe-headers"); j > 0; j-- {
+			r.Headers = append(r.Headers, [2]string{rapid.SampledFrom(safeHeaders).Draw(t, "hdr-safe"), guestMark})
+		}
+		// at most ONE hostile header element per request (two would only hide each other)
+		switch k := rapid.IntRange(0, 19).Draw(t, "hdr-hostile"); {
+		case k < 10:
+		case k < 16: // reserved name, harmless value
+			r.Headers = append(r.Headers, [2]string{rapid.SampledFrom(reservedHdrs).Draw(t, "hdr-reserved"), rapid.SampledFrom(hdrValues[:2]).Draw(t, "hdr-value")})
+		case k < 18: // safe name, header-splitting value
+			r.Headers = append(r.Headers, [2]string{rapid.SampledFrom(safeHeaders).Draw(t, "hdr-safe"), rapid.SampledFrom(hdrValues[2:]).Draw(t, "hdr-value")})
+		case k < 19: // malformed name
+			r.Headers = append(r.Headers, [2]string{rapid.SampledFrom(invalidHdrs).Draw(t, "hdr-invalid"), guestMark})
+		default:
+			r.Headers = append(r.Headers, [2]string{rapid.SampledFrom(reservedHdrs).Draw(t, "hdr-reserved"), rapid.SampledFrom(hdrValues[2:]).Draw(t, "hdr-value")})
 		}
 		if rapid.IntRange(0, 3).Draw(t, "req-body") == 0 {
 			r.Body = `{"input":"x"}`
@@ -703,8 +715,10 @@ func (e *e2eEnv) runE2ECase(c e2eCase) (res e2eResult) {
 			res.Inconcl = "cannot listen on " + s.Addr + ": " + err.Error()
 			return res
 		}
+		l.mu.Lock()
 		l.mode, l.status = s.Mode, s.Status
 		l.body = bytes.Repeat([]byte("r"), s.BodyLen)
+		l.mu.Unlock()
 		lsn = append(lsn, l)
 	}
 	for _, l := range lsn {
@@ -719,19 +733,23 @@ func (e *e2eEnv) runE2ECase(c e2eCase) (res e2eResult) {
 	nL := len(c.Listeners)
 	for i, s := range c.Listeners {
 		ip := redir.addr.String()
+		var loc string
 		switch s.LocForm {
 		case "https-ip":
-			lsn[i].loc = "https://" + hostText(ip) + ":" + redir.port + "/redirected"
+			loc = "https://" + hostText(ip) + ":" + redir.port + "/redirected"
 		case "scheme-relative":
-			lsn[i].loc = "//" + hostText(ip) + ":" + redir.port + "/redirected"
+			loc = "//" + hostText(ip) + ":" + redir.port + "/redirected"
 		case "http-ip-mapped":
 			if redir.addr.Is4() {
 				ip = "::ffff:" + ip
 			}
-			lsn[i].loc = "http://" + hostText(ip) + ":" + redir.port + "/redirected"
+			loc = "http://" + hostText(ip) + ":" + redir.port + "/redirected"
 		default:
-			lsn[i].loc = "http://" + hostText(ip) + ":" + redir.port + "/redirected"
+			loc = "http://" + hostText(ip) + ":" + redir.port + "/redirected"
 		}
+		lsn[i].mu.Lock()
+		lsn[i].loc = loc
+		lsn[i].mu.Unlock()
 	}
 
 	portOf := func(p portRef, scheme string) (port string, explicit bool) {
@@ -1036,7 +1054,18 @@ func (e *e2eEnv) runE2ECase(c e2eCase) (res e2eResult) {
 			checkHeaders(l, oc)
 		}
 	}
-	if pc := e.proxy.take(); len(pc) > 0 {
+	var pc []*obsConn
+	for _, oc := range e.proxy.take() {
+		// A client that uses a proxy speaks first (CONNECT / absolute-URI request).
+		// A silent connection on the process-wide proxy listener can only be a
+		// left-over of an aborted barrier of an earlier case; it is not evidence.
+		if len(oc.Raw) == 0 || bytes.HasPrefix(oc.Raw, []byte(sentinelMagic)) {
+			res.Classes = append(res.Classes, "e2e:silent-proxy-connection-ignored")
+			continue
+		}
+		pc = append(pc, oc)
+	}
+	if len(pc) > 0 {
 		first := ""
 		if len(pc[0].Raw) > 0 {
 			first = strings.SplitN(string(pc[0].Raw), "\r\n", 2)[0]
